@@ -1,22 +1,27 @@
 (* MODEL side of the C05 ops `tot.<entry> <bytes> [n]` of goexec/total.go.
 
    goexec runs one entry group of the REAL library (decoder, then every getter / printer / re-encoder of a
-   successful result) and answers  [0 u] returned / [2 xSITE] panicked / [3] hang.
+   successful result) and answers  [0 u e] returned / [2 xSITE] panicked / [3] hang; e = 1 when the group's PRIMARY
+   decoder call returned a non-nil error (which call that is: the e_* functions below; 0 for a group without one).
    Here the same group is run over the MODELS, call by call in the order of total.go, with the argument prepared
    in the same way (pkt_of = totPkt: the bytes copied into a zero 188-byte array; the integer selects ops), and
    the answer is the model's outcome class:
-       [0 1]   every modelled call of the group returned Ok / Err (a value model never modifies its input)
+       [0 1 e] every modelled call of the group returned Ok / Err (a value model never modifies its input);
+               e = 1 when the model of the primary decoder call returned Err: WHICH inputs are rejected is compared
        [2 x]   some modelled call returned Panic  (Go: the first panic ends the group)
        [3]     some modelled call returned Diverge
    Calls whose model is a plain total Gallina function (no Res type: header getters, CC helpers, flag
    getters, struct-field getters, Data() of EBP / SCTE-35, RemoveElementaryStreams, CanClose, Equal ...) cannot
-   have another outcome than "value" and are only listed in the comments.  Calls that have NO model (String(),
-   Format(), fmt.Sprint, psi.CanBuildPMT as a separate function, the state tracker at the end of scte.new) are
-   named in the comment of their group: for those the C05 run rests on the real side alone.
+   have another outcome than "value" and are only listed in the comments.  The printers (String(), Format(), fmt %v /
+   Sprint of a result) are run through their panic-relevant models of Model/Printers.v, the state tracker at the end of
+   scte.new through Model/State.v.  A call that still has NO model is named in the comment of its group: for those the
+   C05 run rests on the real side alone (at present: none; EBPSuccessReadTime returns a stored clock reading whose VALUE
+   is not modelled, the call itself is a field read).
    Properties/C05Tot.v proves that these ops never answer [2 x] / [3]. *)
 From Gots Require Import Base.Prelude Exec.ExecBase.
 From Gots Require Import Model.Packet Model.Create Model.AF Model.AFfn Model.Psi Model.Pat Model.Pmt Model.PmtDesc
-  Model.Pts Model.Pes Model.Ebp Model.Scte Model.ScteEnc Model.IO Model.PacketWriter Model.Bufio Model.Accumulator.
+  Model.Pts Model.Pes Model.Ebp Model.Scte Model.ScteEnc Model.IO Model.PacketWriter Model.Bufio Model.Accumulator
+  Model.SegDesc Model.State Model.Printers.
 
 (* ---- outcome classes ---- *)
 Inductive cls : Type := COk | CPanic | CDiverge.
@@ -38,12 +43,18 @@ Definition reply (c : cls) : val :=
   | CDiverge => VL [VI 3%Z]
   end.
 
-(* tot(name, f): f gets the bytes and the optional integer (0 when absent).  A VB that is not a byte string
-   cannot come over the wire; it is refused so that the theorems of C05Tot.v need no side condition. *)
-Definition group (f : bytes -> Z -> cls) (a : list val) : val :=
+(* the reply with the accept / reject bit of the primary decoder *)
+Definition reply_e (c : cls) (e : bool) : val :=
+  match c with COk => VL [VI 0%Z; VI 1%Z; vbool e] | _ => reply c end.
+Definition is_err {A} (r : Res A) : bool := match r with Err _ => true | _ => false end.
+Definition e_none (b : bytes) (n : Z) : bool := false.
+
+(* tot(name, f): f gets the bytes and the optional integer (0 when absent); pe is the accept / reject bit.  A VB that
+   is not a byte string cannot come over the wire; it is refused so that the theorems of C05Tot.v need no side condition. *)
+Definition group (f : bytes -> Z -> cls) (pe : bytes -> Z -> bool) (a : list val) : val :=
   match a with
-  | [VB b] => if is_bytesb b then reply (f b 0%Z) else vbad
-  | [VB b; VI n] => if is_bytesb b then reply (f b n) else vbad
+  | [VB b] => if is_bytesb b then reply_e (f b 0%Z) (pe b 0%Z) else vbad
+  | [VB b; VI n] => if is_bytesb b then reply_e (f b n) (pe b n) else vbad
   | _ => vbad
   end.
 
@@ -171,9 +182,10 @@ Definition g_affn (b : bytes) (n : Z) : cls :=
 
 (* ------------------------------------------------------------------ psi *)
 (* psi.accessors: PointerField .. SectionLength are total in Model/Psi.v; TableHeaderFromBytes + Data();
-   psi.CanBuildPMT has no model of its own (its comparison is inlined in Pmt.extract_crc). *)
+   psi.CanBuildPMT(b, uint16(n)) is the plain function Printers.can_build_pmt (one comparison, total by construction). *)
 Definition g_psi_accessors (b : bytes) (n : Z) : cls :=
-  cl (Psi.table_header_from_bytes b).
+  cl (Psi.table_header_from_bytes b)
+  >> (let r := Printers.can_build_pmt b (Z.to_N (n mod 65536)) in COk).
 
 Definition pat_getters (p : bytes) : cls :=
   cl (Pat.num_programs p) >> cl (Pat.program_map p) >> cl (Pat.spts_pmt_pid p).
@@ -182,21 +194,35 @@ Definition g_psi_pat (b : bytes) (n : Z) : cls :=
   on_ok (Pat.new_pat b) (fun p => pat_getters p >> cl (Pat.is_pmt (pkt_of b) (Some p))).
 
 Definition desc_conv (d : Pmt.desc) : PmtDesc.t := PmtDesc.mk (Pmt.dtag d) (Pmt.ddata d).
-(* the decoders of one PMT descriptor, in the order of total.go (tag tests are total; Format() has no model) *)
+(* the calls on one PMT descriptor, in the order of total.go: Format(), String() (called directly: fmt would swallow its
+   panic), then the decoders (tag tests are total) *)
 Definition desc_calls (d : PmtDesc.t) : cls :=
-  cl (PmtDesc.is_iframe_profile d) >> cl (PmtDesc.is_dolby_atmos d) >> cl (PmtDesc.is_dolby_vision d)
+  cl (Printers.desc_format d) >> cl (Printers.desc_string d)
+  >> cl (PmtDesc.is_iframe_profile d) >> cl (PmtDesc.is_dolby_atmos d) >> cl (PmtDesc.is_dolby_vision d)
   >> cl (PmtDesc.decode_dolby_vision_codec d) >> cl (PmtDesc.decode_iso639_language_code d)
   >> cl (PmtDesc.decode_iso639_audio_type d) >> cl (PmtDesc.decode_maximum_bit_rate d)
   >> cl (PmtDesc.decode_ttml_iso639_language_code d) >> cl (PmtDesc.decode_ttml_subtitle_purpose d).
+(* per stream: String() and the String() of its stream type (both called directly as well), MaxBitRate, the descriptors *)
 Definition es_calls (e : Pmt.es) : cls :=
   let ds := map desc_conv (Pmt.descs e) in
-  cl (PmtDesc.max_bit_rate ds) >> allc desc_calls ds.
-(* psi.pmt: NewPMT; per stream MaxBitRate and per descriptor every decoder.  Total: Pids, VersionNumber,
-   CurrentNextIndicator, PIDExists / IsPidForStreamWherePresentationLagsEbp (with n and with every PID of the PMT itself),
-   the stream-type predicates (Model/StreamType.v), IsTTMLSubtitling, RemoveElementaryStreams (of {n, 256}, of the PMT's
-   first PID, of all its PIDs).  Not modelled: String(), Format(). *)
+  cl (Printers.es_string e) >> cl (Printers.stream_type_string (Pmt.stype e))
+  >> cl (PmtDesc.max_bit_rate ds) >> allc desc_calls ds.
+(* psi.pmt: NewPMT; p.String(); per stream es_calls; RemoveElementaryStreams({n, 256}) and p.String(); when the PMT had
+   PIDs: RemoveElementaryStreams(own[:1]), RemoveElementaryStreams(own), p.String().  Total by construction: Pids,
+   VersionNumber, CurrentNextIndicator, PIDExists / IsPidForStreamWherePresentationLagsEbp (with n and with every PID of
+   the PMT itself), the stream-type predicates (Model/StreamType.v), IsTTMLSubtitling, RemoveElementaryStreams. *)
 Definition g_psi_pmt (b : bytes) (n : Z) : cls :=
-  on_ok (Pmt.new_pmt b) (fun p => allc es_calls (Pmt.streams p)).
+  on_ok (Pmt.new_pmt b) (fun p =>
+    cl (Printers.pmt_string p)
+    >> allc es_calls (Pmt.streams p)
+    >> (let p1 := Pmt.remove_elementary_streams p [pid_of n; 256] in
+        cl (Printers.pmt_string p1)
+        >> match Pmt.pids p with
+           | [] => COk
+           | o :: _ =>
+             let p2 := Pmt.remove_elementary_streams (Pmt.remove_elementary_streams p1 [o]) (Pmt.pids p) in
+             cl (Printers.pmt_string p2)
+           end)).
 
 Definition g_psi_done (b : bytes) (n : Z) : cls := cl (Pmt.done_func b).
 Definition g_psi_crc (b : bytes) (n : Z) : cls := cl (Pmt.extract_crc b).
@@ -229,28 +255,40 @@ Definition g_psi_filter (b : bytes) (n : Z) : cls :=
 Definition g_psi_readpat (b : bytes) (n : Z) : cls :=
   let tail := if (Nat.modulo (List.length b) 188 =? 0)%nat then E.EOF else E.UnexpectedEOF in
   on_ok (Pat.read_pat (map Pat.RFull (chunks b) ++ [Pat.RFail tail])) pat_getters.
-(* psi.readpmt: ReadPMT(reader, n), n = -1: the PID of the first packet; then Pids (total) and String() (not modelled) *)
+(* psi.readpmt: ReadPMT(reader, n), n = -1: the PID of the first packet; then String() and Pids (total) *)
 Definition readpmt_pid (b : bytes) (n : Z) : N :=
   if (n =? -1)%Z then (if 3 <=? len b then pid_at b else 0) else pid_of n.
-Definition g_psi_readpmt (b : bytes) (n : Z) : cls := cl (Pmt.read_pmt b (readpmt_pid b n)).
+Definition g_psi_readpmt (b : bytes) (n : Z) : cls :=
+  on_ok (Pmt.read_pmt b (readpmt_pid b n)) (fun p => cl (Printers.pmt_string p)).
 
 (* ------------------------------------------------------------------ pes / ebp / scte35 *)
-(* pes.new: NewPESHeader (its getters read struct fields; %v / Format() are not modelled), then
+(* pes.new: NewPESHeader (its getters read struct fields), fmt %v of the header, Format(); then
    pes.ExtractTime(b) when len(b) >= 5 *)
 Definition g_pes_new (b : bytes) (n : Z) : cls :=
-  cl (Pes.new_pes_header b) >> (if 5 <=? len b then cl (Pes.extract_time b) else COk).
+  on_ok (Pes.new_pes_header b) (fun h => cl (Printers.pes_fmt_v h) >> cl (Printers.pes_format h))
+  >> (if 5 <=? len b then cl (Pes.extract_time b) else COk).
 (* ebp.read: the readers of /repo HEAD (length test before every optional field: g = true).  Getters, EBPTime,
-   StreamSyncSignal and Data() are total functions of Model/Ebp.v; fmt.Sprint is not modelled. *)
+   StreamSyncSignal and Data() are total functions of Model/Ebp.v; EBPSuccessReadTime reads a stored time.Time (the
+   clock reading itself is not modelled); fmt.Sprint(e) calls no gots code (Printers.ebp_sprint). *)
 Definition g_ebp_read (b : bytes) (n : Z) : cls :=
-  cl (Ebp.ReadEncoderBoundaryPoint true b).
-(* scte.new: NewSCTE35; all getters read struct fields; CanClose / Equal are total (Model/SegDesc.v);
-   UpdateData (total, Model/ScteEnc.v) and NewSCTE35 again on 0 :: out.  Not modelled: String(), and the state
-   tracker calls (NewState, ProcessDescriptor, Open) at the end of the group.
+  on_ok (Ebp.ReadEncoderBoundaryPoint true b) (fun fe => cl (Printers.ebp_sprint (snd fe))).
+(* scte.new: NewSCTE35; s.String() (it starts with UpdateData: the calls after it see the object it leaves behind, s1);
+   the getters of the signal and of its command read struct fields; per descriptor StreamSwitchSignalId, MID and
+   Components index d.mid / d.components (Model/Printers.v), the other getters read struct fields, CanClose / Equal are
+   total (Model/SegDesc.v); UpdateData (total, Model/ScteEnc.v) and NewSCTE35 again on 0 :: out; then the state tracker:
+   NewState, ProcessDescriptor of every descriptor, Open (Model/State.v through Printers.tracker_calls).
    `out` is a Go []byte: its elements are bytes by type.  The encoder model writes `byte(x)` as an explicit mod only
    where the value can exceed 255 for a normal object; `map w8` restores the type discipline for every object (it is the
    identity whenever the byte-range lemmas of the encoder hold: Proofs/ScteEncBytes.v, C09). *)
+Definition seg_calls (d : Scte.segdesc) : cls :=
+  cl (Printers.stream_switch_signal_id d) >> cl (Printers.seg_mid d) >> cl (Printers.seg_components d).
 Definition g_scte_new (b : bytes) (n : Z) : cls :=
-  on_ok (Scte.new_scte35 b) (fun s => cl (Scte.new_scte35 (0 :: map w8 (fst (ScteEnc.update_data s))))).
+  on_ok (Scte.new_scte35 b) (fun s =>
+    cl (Printers.scte_string s)
+    >> (let s1 := Printers.scte_after_string s in
+        allc seg_calls (Scte.s_descs s1)
+        >> cl (Scte.new_scte35 (0 :: map w8 (fst (ScteEnc.update_data s1))))
+        >> cl (Printers.tracker_calls (snd (ScteEnc.update_data s1))))).
 
 (* ------------------------------------------------------------------ streams *)
 (* bytes.NewReader(b) as a read script: Read delivers what fits of the remaining bytes, then io.EOF *)
@@ -299,27 +337,70 @@ Definition g_pkt_writer (b : bytes) (n : Z) : cls :=
   let r3 := PacketWriter.read_from (tot_writer n k2) PacketWriter.pkt0 (reader_script b) in
   cl r1 >> cl r2 >> cl r3.
 
+(* ------------------------------------------------------------------ the accept / reject bit of every group:
+   e = 1 iff the PRIMARY decoder call of the group returned a non-nil error (goexec: totE(err) at the same call) *)
+(* pkt.read: packet.Payload(p) *)
+Definition e_pkt_read (b : bytes) (n : Z) : bool := is_err (Packet.Payload_fn (pkt_of b)).
+(* pkt.setpayload: p.Payload() after the SetPayload *)
+Definition e_pkt_setpayload (b : bytes) (n : Z) : bool :=
+  let p := pkt_of b in is_err (Packet.Payload_m (fst (Packet.SetPayload_m p (ramp (payload_len p n) 0)))).
+(* pkt.setafc: p.Payload() after the SetAdaptationFieldControl *)
+Definition e_pkt_setafc (b : bytes) (n : Z) : bool :=
+  is_err (Packet.Payload_m (fst (Packet.SetAdaptationFieldControl (pkt_of b) (Z.to_N (Z.land n 3))))).
+(* af.getters / af.setters: p.AdaptationField() (fails exactly when the flag is missing) *)
+Definition e_af_getters (b : bytes) (n : Z) : bool :=
+  let p0 := pkt_of b in
+  negb (AF.get_bit (if (Z.land n 1 =? 1)%Z then or_byte p0 3 32 else p0) 3 32).
+Definition e_af_setters (b : bytes) (n : Z) : bool :=
+  let p0 := pkt_of b in
+  negb (AF.get_bit (if (Z.rem (Z.quot n 20) 2 =? 1)%Z then or_byte p0 3 32 else p0) 3 32).
+Definition e_psi_accessors (b : bytes) (n : Z) : bool := is_err (Psi.table_header_from_bytes b).
+Definition e_psi_pat (b : bytes) (n : Z) : bool := is_err (Pat.new_pat b).
+Definition e_psi_pmt (b : bytes) (n : Z) : bool := is_err (Pmt.new_pmt b).
+Definition e_psi_done (b : bytes) (n : Z) : bool := is_err (Pmt.done_func b).
+Definition e_psi_crc (b : bytes) (n : Z) : bool := is_err (Pmt.extract_crc b).
+(* psi.filter: the error of FilterPMTPacketsToPids: a parse error, or the list of missing PIDs *)
+Definition e_psi_filter (b : bytes) (n : Z) : bool :=
+  let pk := match chunks b with [] => [pkt_of b] | l => l end in
+  match filter_pids pk n with
+  | Ok want => match Pmt.filter_pmt_packets pk want with Err _ => true | Ok (_, Some _) => true | _ => false end
+  | _ => false
+  end.
+Definition e_psi_readpat (b : bytes) (n : Z) : bool :=
+  let tail := if (Nat.modulo (List.length b) 188 =? 0)%nat then E.EOF else E.UnexpectedEOF in
+  is_err (Pat.read_pat (map Pat.RFull (chunks b) ++ [Pat.RFail tail])).
+Definition e_psi_readpmt (b : bytes) (n : Z) : bool := is_err (Pmt.read_pmt b (readpmt_pid b n)).
+Definition e_pes_new (b : bytes) (n : Z) : bool := is_err (Pes.new_pes_header b).
+Definition e_ebp_read (b : bytes) (n : Z) : bool := is_err (Ebp.ReadEncoderBoundaryPoint true b).
+Definition e_scte_new (b : bytes) (n : Z) : bool := is_err (Scte.new_scte35 b).
+(* pkt.sync: the error of Sync (the model returns it next to the offset) *)
+Definition e_pkt_sync (b : bytes) (n : Z) : bool :=
+  match Bufio.sync_raw (Z.to_nat (16 + Z.rem n 4096)) (reader_script b) with
+  | Ok (_, Some _, _) => true | Err _ => true | _ => false end.
+
+(* the 21 entry groups: name, the calls, the accept / reject bit *)
 Open Scope string_scope.
-Definition ops : list op := [
-  ("tot.pkt.read", group g_pkt_read);
-  ("tot.pkt.setpayload", group g_pkt_setpayload);
-  ("tot.pkt.setpayloadfn", group g_pkt_setpayloadfn);
-  ("tot.pkt.setafc", group g_pkt_setafc);
-  ("tot.af.getters", group g_af_getters);
-  ("tot.af.setters", group g_af_setters);
-  ("tot.affn", group g_affn);
-  ("tot.psi.accessors", group g_psi_accessors);
-  ("tot.psi.pat", group g_psi_pat);
-  ("tot.psi.pmt", group g_psi_pmt);
-  ("tot.psi.done", group g_psi_done);
-  ("tot.psi.crc", group g_psi_crc);
-  ("tot.psi.filter", group g_psi_filter);
-  ("tot.psi.readpat", group g_psi_readpat);
-  ("tot.psi.readpmt", group g_psi_readpmt);
-  ("tot.pes.new", group g_pes_new);
-  ("tot.ebp.read", group g_ebp_read);
-  ("tot.scte.new", group g_scte_new);
-  ("tot.pkt.sync", group g_pkt_sync);
-  ("tot.pkt.acc", group g_pkt_acc);
-  ("tot.pkt.writer", group g_pkt_writer)
+Definition groups : list (string * (bytes -> Z -> cls) * (bytes -> Z -> bool)) := [
+  ("tot.pkt.read", g_pkt_read, e_pkt_read);
+  ("tot.pkt.setpayload", g_pkt_setpayload, e_pkt_setpayload);
+  ("tot.pkt.setpayloadfn", g_pkt_setpayloadfn, e_none);
+  ("tot.pkt.setafc", g_pkt_setafc, e_pkt_setafc);
+  ("tot.af.getters", g_af_getters, e_af_getters);
+  ("tot.af.setters", g_af_setters, e_af_setters);
+  ("tot.affn", g_affn, e_none);
+  ("tot.psi.accessors", g_psi_accessors, e_psi_accessors);
+  ("tot.psi.pat", g_psi_pat, e_psi_pat);
+  ("tot.psi.pmt", g_psi_pmt, e_psi_pmt);
+  ("tot.psi.done", g_psi_done, e_psi_done);
+  ("tot.psi.crc", g_psi_crc, e_psi_crc);
+  ("tot.psi.filter", g_psi_filter, e_psi_filter);
+  ("tot.psi.readpat", g_psi_readpat, e_psi_readpat);
+  ("tot.psi.readpmt", g_psi_readpmt, e_psi_readpmt);
+  ("tot.pes.new", g_pes_new, e_pes_new);
+  ("tot.ebp.read", g_ebp_read, e_ebp_read);
+  ("tot.scte.new", g_scte_new, e_scte_new);
+  ("tot.pkt.sync", g_pkt_sync, e_pkt_sync);
+  ("tot.pkt.acc", g_pkt_acc, e_none);
+  ("tot.pkt.writer", g_pkt_writer, e_none)
 ].
+Definition ops : list op := map (fun g => (fst (fst g), group (snd (fst g)) (snd g))) groups.
